@@ -748,6 +748,10 @@ func TestC05Directed(t *testing.T) {
 		for _, say := range []int{0, 1} {
 			cases = append(cases, Case{Map: true, Ops: []Op{{K: "authorizer", On: true}, {K: "authz", Perm: 0, User: kind, On: true, Say: say}, {K: "authz", Perm: 1, User: kind, On: true, Say: say},
 				{K: "run", Cmd: 0, Kind: kind, Keep: true}, {K: "follow", Cmd: 1}, {K: "resume", Cmd: 1, Kind: kind, Keep: true}, {K: "follow", Cmd: 0}, {K: "resume", Cmd: 0, Kind: kind}}})
+			// the session exists before the authorizer is switched on (so a raw-name table cannot stop it being made)
+			cases = append(cases, Case{Map: true, Ops: []Op{{K: "run", Cmd: 0, Kind: kind, Keep: true}, {K: "follow", Cmd: 1}, {K: "authorizer", On: true},
+				{K: "authz", Perm: 0, User: kind, On: true, Say: say}, {K: "authz", Perm: 1, User: kind, On: true, Say: say}, {K: "authz", Perm: 2, User: kind, On: true, Say: say},
+				{K: "resume", Cmd: 1, Kind: kind, Keep: true}, {K: "follow", Cmd: 0}, {K: "follow", Cmd: 2}, {K: "resume", Cmd: 0, Kind: kind}, {K: "resume", Cmd: 2, Kind: kind}}})
 		}
 	}
 	// every third scenario again on a server that has a session cache of its own
